@@ -14,6 +14,9 @@ type Corruption struct {
 	Apply   func(t *rapid.T, m *WireMsg) JArr
 }
 
+// two-byte characters; several have a code point whose low byte is an ASCII hex digit
+var nonASCIIHexLookalikes = []string{"ı", "ɡ", "а", "é", "İ", "ö", "ß", "ĳ", "ƒ"}
+
 func upperOneHex(t *rapid.T, s string) string {
 	var pos []int
 	for i := 0; i < len(s); i++ {
@@ -77,6 +80,8 @@ func badHexList(kind string) func(t *rapid.T) J {
 			bad = JStr(upperOneHex(t, good))
 		case "nonhex":
 			bad = JStr("g" + good[1:])
+		case "nonascii":
+			bad = JStr(good[:20] + rapid.SampledFrom(nonASCIIHexLookalikes).Draw(t, "nachar") + good[22:])
 		case "number":
 			bad = JRaw("5")
 		case "empty":
@@ -148,6 +153,12 @@ var Corruptions = func() []Corruption {
 			Corruption{"event-" + f + "-long", isEv, evField(f, func(t *rapid.T, old J) J { return JStr(string(old.(JStr)) + "0") })},
 			Corruption{"event-" + f + "-upper", isEv, evField(f, func(t *rapid.T, old J) J { return JStr(upperOneHex(t, string(old.(JStr)))) })},
 			Corruption{"event-" + f + "-nonhex", isEv, evField(f, func(t *rapid.T, old J) J { s := string(old.(JStr)); return JStr(s[:len(s)-1] + "z") })},
+			Corruption{"event-" + f + "-nonascii", isEv, evField(f, func(t *rapid.T, old J) J {
+				// one two-byte character in place of two hex digits: the byte length stays right
+				s := string(old.(JStr))
+				pos := rapid.IntRange(0, len(s)-2).Draw(t, "napos")
+				return JStr(s[:pos] + rapid.SampledFrom(nonASCIIHexLookalikes).Draw(t, "nachar") + s[pos+2:])
+			})},
 			Corruption{"event-" + f + "-empty", isEv, evField(f, constJ(JStr("")))},
 			Corruption{"event-" + f + "-number", isEv, evField(f, constJ(JRaw("12")))},
 			Corruption{"event-" + f + "-null", isEv, evField(f, constJ(JRaw("null")))},
@@ -190,7 +201,7 @@ var Corruptions = func() []Corruption {
 		return withFilter(t, m, func(o JObj) J { return append(append(JObj(nil), o...), JField{K: k, V: JArr{}}) })
 	}})
 	for _, f := range []string{"ids", "authors", "#e", "#p"} {
-		for _, kind := range []string{"short", "long", "upper", "nonhex", "number", "empty"} {
+		for _, kind := range []string{"short", "long", "upper", "nonhex", "nonascii", "number", "empty"} {
 			cs = append(cs, Corruption{"filter-" + f + "-" + kind, isFil, filField(f, badHexList(kind))})
 		}
 		cs = append(cs, Corruption{"filter-" + f + "-not-array", isFil, filField(f, func(t *rapid.T) J {
